@@ -776,7 +776,8 @@ class Interp:
             return a * b
         if opn == "Mult" and isinstance(a, str) and isinstance(b, (Opaque, Sym)):
             return Opaque(f"{a!r}*{to_text(b)}")
-        if isinstance(a, (int, float)) and isinstance(b, (int, float)) and not isinstance(a, bool) and not isinstance(b, bool):
+        if isinstance(a, (int, float)) and isinstance(b, (int, float)) and not (isinstance(a, bool) and isinstance(b, bool) and opn in ("BitAnd", "BitOr", "BitXor")):
+            # (bool is an int in arithmetic: 1 + (not signed); and / or / xor of two bools stay bools and are handled as flags elsewhere)
             import operator as o
 
             f = {"Add": o.add, "Sub": o.sub, "Mult": o.mul, "Div": o.truediv, "FloorDiv": o.floordiv, "Mod": o.mod,
